@@ -302,7 +302,7 @@ let handle fields =
       let name = (match e with Done -> "Done" | DoubleFree -> "DoubleFree" | UseAfterFree -> "UseAfterFree" | WrongDeallocator -> "WrongDeallocator"
         | FreeOfLibraryOwned -> "FreeOfLibraryOwned" | NullHandle -> "NullHandle" | BadOp -> "BadOp") in
       let live k = List.length (List.filter (fun o -> int_of_nat o.o_kind = k && o.o_live) s.oheap) in
-      Printf.sprintf "%s %d live1=%d live2=%d live3=%d live4=%d" name i (live 1) (live 2) (live 3) (live 4)
+      Printf.sprintf "%s %d live1=%d live2=%d live3=%d live4=%d live5=%d" name i (live 1) (live 2) (live 3) (live 4) (live 5)
   | ["uncamel"; s] -> field_of_ustr (un_camel (ustr_of_field s))
   | ["decl"; c; s] -> show_result show_stmt (parse_statement (ctx_of_field c) (ustr_of_field s))
   | ["lstrip"; s] -> field_of_ustr (lstrip (ustr_of_field s))
